@@ -291,6 +291,19 @@ func (g *Gen) applyCall(ce callee, c *ssa.CallCommon, val ssa.Value, pos token.P
 
 	g.detFact(ce, args, results, guard)
 	ctr := g.contractFor(ce)
+	if ctr != nil && ctr.Assumed && ce.isInvoke {
+		// an assumed interface-level contract none of whose clauses belongs to this run says nothing here:
+		// it must not switch off the devirtualisation to verified in-repo implementations
+		vis := false
+		for _, cl := range ctr.Clauses {
+			if cl.visible(g.prop) {
+				vis = true
+			}
+		}
+		if !vis && !ctr.Pure {
+			ctr = nil
+		}
+	}
 	pre := copyState(g.cur)
 	if ctr != nil {
 		g.usedCtr[ctr.Key] = true
